@@ -644,7 +644,6 @@ Proof.
   cbn [RL]. split; cbn [tops texts]; assumption.
 Qed.
 End P.
-Print Assumptions parse_program_loc.
 
 (* ====================================================================================================================== *)
 (* PART 3: the real format() operator                                                                                     *)
@@ -693,7 +692,6 @@ Proof.
   pose proof named_loop_loc as K1. intros A. unfold Format.parse_format. rl.
 Qed.
 End F.
-Print Assumptions parse_format_loc.
 
 (* ====================================================================================================================== *)
 (* PART 4: the lines of the tokens grow along the stream                                                                  *)
@@ -906,8 +904,6 @@ Proof.
   eapply chain_nth_lt; eassumption.
 Qed.
 End MONO.
-Print Assumptions lex_lines_monotone.
-Print Assumptions lex_tokens_ordered.
 
 
 (* ====================================================================================================================== *)
@@ -1139,13 +1135,6 @@ Theorem compile_error_lines_in_range optimize mpath src e :
 Proof. intros H. eapply located_lines_in_range, compile_error_located, H. Qed.
 End MAIN.
 
-Print Assumptions parse_error_located.
-Print Assumptions accepted_tokens_stand_in_stream.
-Print Assumptions parsing_functions_errors_located.
-Print Assumptions parse_error_lines_in_range.
-Print Assumptions accepted_token_lines_in_range.
-Print Assumptions compile_error_located.
-Print Assumptions compile_error_lines_in_range.
 
 (* ====================================================================================================================== *)
 (* EXAMPLES: the hypotheses are satisfiable - concrete sources run through the model's lexer, parser and emitter          *)
